@@ -11,7 +11,8 @@ CLAIMS = ("R1 each leaf predicate eval_range{,_i32,_f64,_str}, evaluated abstrac
           "R5 the comparison helpers consult the column's logical type before using integer statistics (DECIMAL columns carry unscaled integers); "
           "R4 definite_comparison's comparisons are dominated by the `null_count_opt() != Some(0) => false` refusal; "
           "R6 'every row matches' has a single source of truth: the value returned by row_group_definitely_matches derives only from constants, its own recursive results and definite_comparison (the function R4 guards against NULL rows) - never from a negation or from the may-match side, which says nothing about NULL rows; "
-          "R7 pruning results are never shared between files through Split::file, a bare file name that is not unique across directories.")
+          "R7 pruning results are never shared between files through Split::file, a bare file name that is not unique across directories; "
+          "R8 a literal-first comparison (`5 <= col`) is evaluated with the flipped operator everywhere: in check_comparison and definite_comparison every operator handed to a range helper, and every operator the function itself dispatches on, is the effective operator (its slice contains flip_op), never the predicate's raw operator.")
 NOT_DECIDED = "that the statistics in a file are themselves correct; UTF-8 truncation of byte-array statistics by writers."
 
 P = "storage::row_group_pruning"
@@ -285,6 +286,30 @@ def run(F, R):
     R.check(not bad6, "C05.R6", "definitely_matches:single-source", "'every row of the group matches' is derived from " + "; ".join(sorted({w for b_, w in bad6})) + ": a may-match answer (or its negation) says nothing about NULL rows, which fail every predicate - the row filter is dropped for a group that still holds non-matching rows", dm.loc(bad6[0][0]) if bad6 else dm.loc(), dict(result_calls=ncalls))
     import splitid
     splitid.run(F, R, "C05.R7")
+    effective_operator(F, R, "C05.R8")
+
+
+def effective_operator(F, R, rid):
+    R.rule(rid, "K5 provenance", "operators used by check_comparison / definite_comparison derive from flip_op (the effective operator)")
+    n = 0
+    FL = P + "::flip_op"
+    for nm in ("check_comparison", "definite_comparison"):
+        g = F.fn(P + "::" + nm)
+        isflip = lambda kk, x: (kk == "call" and x.name == FL and x) or None
+        k_ = 0
+        for c in sorted(g.calls(), key=lambda c: (c.line, c.bb)):
+            if not c.name.startswith(P + "::") or c.name == FL:
+                continue
+            for i, t in enumerate(c.argtys):
+                if "BinaryOp" in t:
+                    n += 1
+                    k_ += 1
+                    R.check(bool(derives_from(g, [c.args[i]], isflip)), rid, f"{nm}:{c.name.rsplit('::', 1)[-1]}#{k_}:effective-op", f"{c.name.rsplit('::', 1)[-1]}() is handed the predicate's raw operator: for a literal-first comparison (`L <= col`) the range test is made for the wrong direction, so a row group is pruned / 'proved' on the wrong bound", g.loc(c.bb), dict())
+        for i, j, dst, rv, line in g.stmts():
+            if rv[0] == "discr" and len(rv) > 2 and rv[2].endswith("BinaryOp"):
+                n += 1
+                R.check(bool(derives_from(g, ["c:" + rv[1]], isflip)), rid, f"{nm}:dispatch-on-effective-op", "the function dispatches on the predicate's raw operator instead of the flipped one", g.loc(i), dict(), nontrivial=False)
+    R.floor(rid, "operator uses in the comparison functions", n, 9)
 
 
 def _idx(lst, item):
